@@ -3,5 +3,5 @@ From M Require Import base.ExtractBase gen.Consts model.Egress.
 Extraction Language OCaml.
 Extraction "model.ml"
   xb_zadd xb_zmul xb_zdiv xb_zmod xb_zopp xb_zltb xb_nadd xb_nmul xb_ndiv xb_nmod xb_z_of_n xb_n_of_z xb_n_of_nat xb_nat_of_n xb_keep
-  ACT_PROXY ACT_DIRECT ACT_REJECT CMD_CONNECT CMD_ASSOC VER
+  ACT_PROXY ACT_DIRECT ACT_REJECT CMD_CONNECT CMD_ASSOC VER tree_fixed
   parse_request find_action relay_step relay_run cidr_contains match_rule rules_action is_loopback is_private is_unspecified.
